@@ -1,2 +1,23 @@
-(* Props/C01.v — placeholder while the proofs are being written *)
-From Ford Require Import Base.Str Sem.Tree.
+(* Props/C01.v — property C01: the documented entity tree equals the declared program structure.
+   Statements only; proofs in Sem/TreeProofs.v.  The theorems speak about the structural layer of
+   the parser (statement kinds -> tree); the classification of statement text into kinds (the
+   regular-expression cascade, all spellings) is validated end-to-end by the check, not proved. *)
+From Ford Require Import Base.Str Sem.Tree Sem.TreeSpec Sem.TreeProofs.
+
+(* Every well-formed file (any number and nesting of modules, submodules, programs, procedures with
+   internal procedures, block data, types with components / bindings / finals, generic, abstract
+   and explicit interfaces, enums, common blocks, namelists, variables, use statements, with
+   documentation and statements that declare nothing in between) is parsed without error into
+   exactly the declared tree: each entity once, under the unit that declares it, with its
+   documentation; nothing undeclared; nothing left over. *)
+Theorem C01_tree_roundtrip : forall fname units,
+  forallb (wf_decl KFile false) units = true ->
+  parse_file fname (file_stmts units) = POk (file_tree fname units) [].
+Proof. exact tree_roundtrip. Qed.
+Print Assumptions C01_tree_roundtrip.
+
+(* In any scope and parser state, one declaration adds exactly its own entities (with their
+   documentation) to the open unit and leaves the parser ready for the next statement. *)
+Theorem C01_decl_consumed : forall d, consumed d.
+Proof. exact every_decl_consumed. Qed.
+Print Assumptions C01_decl_consumed.
